@@ -703,7 +703,9 @@ package iavl
 // is deleted — so that version+1 keeps its tree while `version` disappears from
 // version discovery.  The orphan walk is asked for exactly (version, version+1).
 //@ func (*nodeDB).deleteFromPruning(ndb, key) (err)
-//@   summary
+//@   assumed waits for a running commit (channel receive, outside the translated subset), then issues batch.Delete(key): one delete per call, of exactly the key given
+//@   ensures nprunes == old(nprunes) + 1 && lastpruned == key
+//@   modifies nprunes, lastpruned, nodeDB.mtx[*]
 //@ func (*nodeDB).saveNodeFromPruning(ndb, node) (err)
 //@   summary
 // storage keys of nodes: 's' + 12 bytes, legacy 'n' + 32 bytes; both are fresh
@@ -723,4 +725,15 @@ package iavl
 //@   callsite nodeDB).GetNode [next-refers-here] ord(arg1) == ord(literalRootKey) && ord(nextRootKey) == ord(literalRootKey)
 //@   callsite nodeDB).deleteFromPruning@2 [old-key-first] ord(nextRootKey) == ord(literalRootKey) && root != nil
 //@   callsite nodeDB).saveNodeFromPruning [rekeyed] arg1 == root && root.nodeKey.nonce == 0 && ord(nextRootKey) == ord(literalRootKey)
+//@   modifies *
+
+// the deleter handed to the orphan walk by deleteVersion: every orphan has its
+// OWN storage key deleted (after the nonce rewrite for a previously re-keyed
+// root); a re-keyed root additionally has its possible legacy key deleted first
+//@ func (*nodeDB).deleteVersion$1(orphan) (err)
+//@   props C12 C04
+//@   nosafety
+//@   requires orphan != nil && orphan.nodeKey != nil
+//@   ensures [own-key-deleted] err == nil ==> nprunes == old(nprunes) + ite(old(orphan.nodeKey.nonce) == 0 && !old(orphan.isLegacy), 2, 1)
+//@   ensures [last-is-own] err == nil && !old(orphan.isLegacy) ==> len(lastpruned) == 13 && at(lastpruned, 0) == 115
 //@   modifies *
